@@ -50,6 +50,12 @@ class C04(Prop):
             for m in cc.MALFORMED:
                 yield {'kind': 'decode', 'proto': p, 'msg': list(m)}
                 yield {'kind': 'detect', 'msg': list(m)}
+        # responses whose error member is falsy but not null, in every structural variant
+        for e in (0, 0.0, '', False, [], {}):
+            for shape in ({'result': None, 'error': e, 'id': 1}, {'error': e, 'id': 1}, {'result': 7, 'error': e, 'id': 1},
+                          {'jsonrpc': '2.0', 'error': e, 'id': 1}):
+                for p in PROTOS:
+                    yield {'kind': 'decode', 'proto': p, 'msg': list(json.dumps(shape).encode())}
         for i in range(n):
             p = rng.choice(PROTOS)
             r = rng.random()
@@ -180,6 +186,13 @@ class C04(Prop):
             if obs['kind'] == 'errsend':
                 if not obs['reply_ascii_line']:
                     return 'error reply is not one newline-free ASCII line'
+            # the loose decoder gives a message the same meaning as the strict decoder that accepts it
+            if case['proto'] == 'loose':
+                for strict in ('v1', 'v2'):
+                    so = cc.observe_decode(strict, bytes(case['msg']))
+                    if so['kind'] in ('resp', 'req', 'notif') and so != obs:
+                        return (f'the loose decoder reads this message differently from the {strict} decoder that accepts it: '
+                                f'{str(obs)[:120]} vs {str(so)[:120]}')
             # wire-format conformance of what the strict decoders ACCEPT as a response
             if obs['kind'] == 'resp' and case['proto'] in ('v1', 'v2'):
                 try:
